@@ -23,7 +23,7 @@ def demo(name):
 def main():
     for sd in sys.argv[1:]:
         sd = os.path.abspath(sd)
-        name = "out2" if sd.rstrip("/")[-2:] in ("_b", "_d", "_f") else "out"
+        name = "out2" if sd.rstrip("/")[-2:] in ("_b", "_d", "_f", "_h") else "out"
         res = {"seed": os.path.basename(sd), "at": time.strftime("%F %T")}
         sh("git -C %s checkout -- . && rm -rf %s/out %s/out2" % (WT, WT, WT))
         shutil.copytree(sd, os.path.join(WT, name))
